@@ -5,7 +5,7 @@ import ast
 
 from .astq import is_name, kwarg
 from .cfg import CFG
-from .core import dotted, norm, walk_local
+from .core import call_name, dotted, norm, walk_local
 
 
 def contextvars_of(repo):
@@ -306,7 +306,7 @@ def journal_findings(repo, fi, cg, ctxvars):
                         es = [x for x, l in a.succ if l == "e"]
                         if es and n.id in ({x.id for x in es} | g.reach(es, avoid=[])) and not g.path_exists(a, n, labels=("n", "t", "f")):
                             pass
-                    out.append((c.func.value.id, res, norm(n.stmt)[:70], ok,
+                    out.append((c.func.value.id, res, f"{c.func.value.id}.append()", ok,
                                 "" if ok else f"`{norm(n.stmt)[:60]}` in {h.qual} can run before the acquire it records has completed: "
                                               f"the rollback then releases {res} once more than was acquired"))
     # what is journaled is what was acquired, and the rollback hands it back in the same roles:
@@ -345,7 +345,7 @@ def journal_findings(repo, fi, cg, ctxvars):
                     ok, detail = False, f"`{j}.append({', '.join(comps)})` does not record the arguments of the acquire it follows ({[norm(q)[:50] for q in acqs]})"
             if not ok and not detail:
                 detail = f"the rollback calls `{norm(c)[:60]}` although an entry of `{j}` is {tvars}: the release gets its arguments in other roles than the acquire"
-            out.append((j, journals[j], f"rollback:{norm(c.func)}({', '.join(tvars)})" if ok else f"rollback:{norm(c)[:60]}", ok, detail))
+            out.append((j, journals[j], f"rollback:{call_name(c)}", ok, detail))
     for j, res in journals.items():
         if not any(o[0] == j for o in out):
             out.append((j, res, f"{j}.append(...)", False,
